@@ -1,0 +1,7 @@
+//go:build !verif
+
+package tiered
+
+// verifYield marks a scheduling point for the verification harness. It is a
+// no-op unless built with the verif tag.
+func verifYield(point string) {}
